@@ -22,3 +22,5 @@ def run(ctx):
         gsm.run(ctx, "C07", 100 if q else 1000)
         from .. import alac           # CAF/ALAC: packet staging, pakt / kuki chunks, read / seek around the codec core (lean/SfModel/AlacFile.lean)
         alac.run(ctx, "C07", 96 if q else 960)
+        from .. import adpcmenc       # IMA (WAV / W64 / AIFF layouts) and MS ADPCM encoders + write paths (lean/SfModel/AdpcmEnc.lean, AdpcmFile.lean)
+        adpcmenc.run(ctx, "C07", 120 if q else 1200)
